@@ -1706,10 +1706,42 @@ def known_class_family():
     return cs
 
 
+def lazy_dropped_channel_family():
+    """round 6 (thorough tier alarm): a parameter that only the value of a DROPPED channel mentions is missing.  The code is
+    lazy there - ConstantPT.build_waveform / FunctionPT.build_waveform skip a channel that an enclosing MappingPT maps to
+    None before evaluating its value, so the template is instantiated with the parameter absent - while Spec.denote
+    evaluates every value (None).  Malformed stream (non-strict): the program is compared with the denotation under the
+    completed parameters (Corr.CLazy), the symbolic side under the given ones.  A dropped TABLE channel is evaluated by the
+    code (get_entries_instantiated) and raises: both sides reject, ordinary malformed case."""
+    cs = []
+    tab = {'k': 'table', 'ch': {'A': [[C(0), C(3), 'hold'], [C(1), V('i1'), 'linear'], [C(2), C(1), 'hold']],
+                                'B': [[C(0), C(2), 'hold'], [C(2), V('i1'), 'linear']]}}
+    tabj = {'k': 'table', 'ch': {'A': [[C(0), C(3), 'hold'], [C(1), V('i1'), 'jump'], [C(2), C(1), 'linear']],
+                                 'B': [[C(0), C(2), 'hold'], [C(2), C(3), 'linear']]}}
+    cgone = {'k': 'const', 'd': C(2), 'vals': {'C': mul(V('q'), C(2))}}
+    fgone = {'k': 'func', 'c': 'C', 'd': C(2), 'coef': [V('q'), C(1)]}
+    tgone = {'k': 'table', 'ch': {'C': [[C(0), V('q'), 'hold'], [C(2), C(1), 'linear']]}}
+    def loop(b):
+        return {'k': 'for', 'i': 'i1', 'start': C(1), 'stop': C(4), 'step': C(1), 'b': b}
+    for nm, keep, gone in (('const', tab, cgone), ('const-jump', tabj, cgone), ('func', tab, fgone), ('table', tab, tgone)):
+        m = {'k': 'map', 'b': {'k': 'multi', 'ps': [keep, gone]}, 'pm': {}, 'cm': [['A', 'E'], ['C', None]]}
+        for wrap, t in (('loop', loop(m)), ('seq', {'k': 'seq', 'ps': [loop(m), loop(m)]}),
+                        ('bare', {'k': 'map', 'b': m, 'pm': {'i1': V('a')}, 'cm': []})):
+            cs.append({'kind': 'pulse', 'pt': t, 'params': used_params(t, {'a': '2'}), 'pad': '5/4', 'src': 'malformed',
+                       'shapes': ['lazy-dropped-channel:%s:%s' % (nm, wrap)]})
+    # two-channel constant, one channel dropped
+    two = {'k': 'map', 'b': {'k': 'const', 'd': C(2), 'vals': {'A': V('a'), 'B': V('q')}}, 'pm': {}, 'cm': [['B', None]]}
+    for wrap, t in (('bare', two), ('rep', {'k': 'rep', 'n': C(2), 'b': two}),
+                    ('arith', {'k': 'arithl', 'b': two, 'op': '*', 's': {'all': C(2)}})):
+        cs.append({'kind': 'pulse', 'pt': t, 'params': {'a': '3/4'}, 'pad': '1', 'src': 'malformed',
+                   'shapes': ['lazy-dropped-channel:const2:' + wrap]})
+    return cs
+
+
 def gen_cases(rng, tier, ctx):
     cases = handmade() + blind_class_families(tier) + capture_family()
     cases += zero_count_family(tier) + td_scalar_ends_family(tier) + range_mentions_index_family() + range_param_is_inner_index_family() + round6_seed_class_family() + coverage_families()
-    cases += known_class_family()
+    cases += known_class_family() + lazy_dropped_channel_family()
     if tier == 'quick':
         cases += shared_body_forests(rng, 2)
         pairs = exhaustive_pair_forests(rng)
